@@ -16,7 +16,7 @@ var opcodes = map[string]byte{
 	"ADDRESS": 0x30, "CALLVALUE": 0x34, "CALLDATALOAD": 0x35, "CALLDATASIZE": 0x36, "CODECOPY": 0x39,
 	"POP": 0x50, "MLOAD": 0x51, "MSTORE": 0x52, "SLOAD": 0x54, "SSTORE": 0x55, "JUMP": 0x56, "JUMPI": 0x57, "GAS": 0x5a,
 	"JUMPDEST": 0x5b, "DUP1": 0x80, "DUP2": 0x81, "SWAP1": 0x90, "LOG0": 0xa0, "LOG1": 0xa1,
-	"CREATE": 0xf0, "CALL": 0xf1, "RETURN": 0xf3, "STATICCALL": 0xfa, "REVERT": 0xfd, "INVALID": 0xfe, "SELFDESTRUCT": 0xff,
+	"CREATE": 0xf0, "CALL": 0xf1, "CREATE2": 0xf5, "RETURN": 0xf3, "STATICCALL": 0xfa, "REVERT": 0xfd, "INVALID": 0xfe, "SELFDESTRUCT": 0xff,
 }
 
 // Asm assembles a whitespace separated program. Tokens: opcode names; decimal or 0x literals (PUSH of minimal width);
@@ -81,6 +81,9 @@ const (
 	OpEnergy  = 9  // call the energy builtin: transfer(a, b); reverts if the call fails
 	OpNestDie = 10 // sstore(a, b); call U' = c with [d, a, b]; then REVERT  (outer fails after an inner success)
 	OpNest3   = 11 // sstore(a, b); call U' = c with [d, a, b, e, f] (100000 gas, result ignored); sstore(a+1, b)
+	OpCreate  = 13 // sstore(a, b); CREATE a child whose constructor writes storage, logs, and returns 20000 bytes of code
+	//                (the code deposit cannot be paid: code-store out of gas); the 0 result is ignored; STOP
+	OpCreate2 = 14 // the same with CREATE2
 	OpStatic  = 12 // STATICCALL the energy builtin: transfer(a, b) - a state-changing native call in a read-only frame
 )
 
@@ -94,7 +97,7 @@ func UCode() []byte {
 	inner := " 128 CALLDATALOAD 0 MSTORE 32 CALLDATALOAD 32 MSTORE 64 CALLDATALOAD 64 MSTORE " +
 		" 0 0 96 0 0 96 CALLDATALOAD 40000 CALL POP " // inner frame gets a fixed 40000 gas
 	src := " 0 CALLDATALOAD "
-	for op := 1; op <= 12; op++ {
+	for op := 1; op <= 14; op++ {
 		src += fmt.Sprintf(" DUP1 %d EQ @op%d JUMPI ", op, op)
 	}
 	src += " STOP "
@@ -114,8 +117,13 @@ func UCode() []byte {
 		" 0 0 160 0 0 96 CALLDATALOAD 100000 CALL POP 64 CALLDATALOAD 32 CALLDATALOAD 1 ADD SSTORE STOP "
 	src += " op12: " + EnergyTransferSelector + " 224 SHL 0 MSTORE 32 CALLDATALOAD 4 MSTORE 64 CALLDATALOAD 36 MSTORE " +
 		fmt.Sprintf(" 0 0 68 0 0x%x GAS STATICCALL POP STOP ", energyAddr())
+	// the child's creation code lives behind the label "child" (one JUMPDEST byte, then the code)
+	child := Asm(" 7 5 SSTORE 0 0 LOG0 20000 0 RETURN ")
+	n := len(child)
+	src += " op13: " + store + fmt.Sprintf(" %d @child 1 ADD 0 CODECOPY %d 0 0 CREATE POP STOP ", n, n)
+	src += " op14: " + store + fmt.Sprintf(" %d @child 1 ADD 0 CODECOPY 99 %d 0 0 CREATE2 POP STOP ", n, n)
 	src += " fail: 0 0 REVERT " // a failed inner call of op8 / op9 fails the whole frame
-	return Asm(src)
+	return append(Asm(src+" child: "), child...)
 }
 
 func energyAddr() []byte {
